@@ -985,6 +985,51 @@ func (e *c10) rndAmount() int64 {
 
 var c10Stakeable = []string{"ukex", "ubtc", "utst"}
 
+// periodStrand: two accounts undelegate from one pool, the first under a long unstaking period, the second after
+// governance has shortened it; the clock moves to the moment the SECOND record matures (the first has not); then both
+// claim their matured undelegations, the owner of the unexpired record first. Expiries are not ordered by id here.
+func (e *c10) periodStrand() {
+	app := e.w.app
+	rng := e.r.Rng
+	setPeriod := func(p uint64) {
+		np := *app.CustomGovKeeper.GetNetworkProperties(e.ctx)
+		np.UnstakingPeriod = p
+		if err := app.CustomGovKeeper.SetNetworkProperties(e.ctx, &np); err == nil {
+			e.loadProps()
+		}
+	}
+	v := -1
+	for i := 0; i < e.nVal; i++ {
+		if p, ok := app.MultiStakingKeeper.GetStakingPoolByValidator(e.ctx, e.val(i)); ok && p.Enabled && p.Slashed.IsZero() {
+			v = i
+		}
+	}
+	if v < 0 {
+		return
+	}
+	a1 := rng.Intn(e.nAcc)
+	a2 := (a1 + 1 + rng.Intn(e.nAcc-1)) % e.nAcc
+	setPeriod(2629800)
+	stake := sdk.NewCoins(sdk.NewInt64Coin("ukex", int64(1000+rng.Intn(100000))))
+	if e.delegate(a1, v, stake) != nil || e.delegate(a2, v, stake) != nil {
+		return
+	}
+	if e.undelegate(a1, v, sdk.NewCoins(sdk.NewInt64Coin("ukex", 500))) != nil {
+		return
+	}
+	e.setCtx(e.h+1, e.t+int64(1+rng.Intn(1000)))
+	setPeriod(604800)
+	if e.undelegate(a2, v, sdk.NewCoins(sdk.NewInt64Coin("ukex", 400))) != nil {
+		return
+	}
+	e.r.Count("strand:period-shortened")
+	// the second record matures now; the first one about three weeks later
+	e.setCtx(e.h+1, e.t+604800+int64(rng.Intn(3)))
+	e.claimAll(a1)
+	e.claimAll(a2)
+	e.obsUndels()
+}
+
 func (e *c10) rndStake() sdk.Coins {
 	rng := e.r.Rng
 	cs := sdk.NewCoins()
@@ -1034,9 +1079,28 @@ func (e *c10) episode(n int, ep int) {
 	}
 	e.upsert(e.nVal, 0, true, sdk.MustNewDecFromStr("0.1")) // not the owner
 	var undelIds uint64
+	strandAt := n / 3
+	if n > 6 {
+		strandAt += rng.Intn(n / 3)
+	}
 	for i := 0; i < n; i++ {
 		a := rng.Intn(e.nAcc)
 		v := rng.Intn(e.nVal)
+		if i == strandAt {
+			e.periodStrand()
+			continue
+		}
+		if rng.Intn(45) == 0 {
+			// governance changes the unstaking period in the middle of the episode (both directions, valid values): the
+			// undelegations on record keep the expiry they were created with, so expiries are no longer ordered by id
+			np := *app.CustomGovKeeper.GetNetworkProperties(e.ctx)
+			np.UnstakingPeriod = []uint64{604800, 2629800, 700001, 1209600}[rng.Intn(4)]
+			if err := app.CustomGovKeeper.SetNetworkProperties(e.ctx, &np); err == nil {
+				e.loadProps()
+				e.r.Count("props:unstaking-period-changed")
+			}
+			continue
+		}
 		switch k := rng.Intn(100); {
 		case k < 26:
 			e.delegate(a, v, e.rndStake())
@@ -1142,6 +1206,11 @@ func (e *c10) episode(n int, ep int) {
 				a = e.accIdx(u.Address)
 				if rng.Intn(2) == 0 && int64(u.Expiry) >= e.t {
 					e.setCtx(e.h+1, int64(u.Expiry))
+				}
+				if rng.Intn(2) == 0 {
+					// ... and the claim comes from the owner of ANOTHER record (whose own records may all be unexpired at the
+					// moment one of somebody else's matures - expiries need not be ordered by id)
+					a = e.accIdx(us[rng.Intn(len(us))].Address)
 				}
 			}
 			e.claimAll(a)
